@@ -1,5 +1,6 @@
 import GateryModel.C01.Spec
 import GateryModel.Nodes.Seq
+import GateryModel.C01.RewireOpt
 import Driver.NodesCommon
 /-!
 Driver for C01: checks the relation `F` between the reference trace and (a) the trace after every post-processing pass
@@ -22,6 +23,14 @@ structure Case where
   prevVals : List (String × Nat × Array (Option BV4)) := []   -- tag ↦ (cycle, values seen by consumers at that cycle)
   resets : List (String × Nat × Bool) := []                 -- (tag, cycle) ↦ reset asserted at the sample point
   auto : List (String × Nat × Array (Option BV4)) := []     -- tag ↦ (cycle, values of the autonomous Lean run `seqRun` at that cycle)
+  -- `Node_Rewire::optimize` stream: kinds / drivers / ranges before, drivers / ranges after, driver values
+  isRw : Bool := false
+  rwKinds : List CK := []
+  rwDrv : List (Option Nat) := []
+  rwRanges : List Range := []
+  rwODrv : List (Option Nat) := []
+  rwORanges : List Range := []
+  rwVals : List (Nat × BV4) := []
 
 structure Stats where
   cases : Nat := 0
@@ -48,6 +57,9 @@ structure Stats where
   autoRestarts : Nat := 0        -- autonomous runs (re)started from the simulator's register values (first cycle, reset changing)
   kindHist : List (String × Nat) := []
   hist : List (String × Nat) := []
+  rwCases : Nat := 0             -- Node_Rewire::optimize cases replayed on the model and evaluated before/after
+  rwChanged : Nat := 0           -- … in which the operation or the wiring changed
+  rwHist : List (String × Nat) := []
 
 def bump (h : List (String × Nat)) (k : String) : List (String × Nat) :=
   match h with
@@ -66,6 +78,7 @@ def showRow (r : List Value) : String := " ".intercalate (r.map String.ofList)
 def finish (c : Case) (st : Stats) : IO Stats := do
   let mut st := st
   if c.id == "" then return st
+  if c.isRw then return st
   if c.ppfail then return { st with ppfail := st.ppfail + 1 }
   for (i, tr) in c.bts do
     st := { st with ops := st.ops + 1 }
@@ -257,6 +270,38 @@ partial def loop (h : IO.FS.Stream) (c : Case) (st : Stats) : IO Stats := do
       -- after a difference the run is restarted from the simulator's values so that one cause is reported once
       let c := { c with auto := if abad.isEmpty then (tag, cycN, avals) :: c.auto.filter (·.1 != tag) else c.auto.filter (·.1 != tag) }
       loop h c st
+  | ["rwk", s] =>
+    let ks : List CK := if s == "." then [] else (s.splitOn ",").map fun t => if t == "z" then CK.zero else if t == "o" then CK.one else CK.other
+    loop h { c with isRw := true, rwKinds := ks } st
+  | ["rwd", s] => loop h { c with rwDrv := if s == "." then [] else (s.splitOn ",").map fun t => if t == "-" then none else some t.toNat! } st
+  | ["rwr", s] => loop h { c with rwRanges := if s == "-" then [] else (s.splitOn ",").map Drv.parseRange } st
+  | ["rwod", s] => loop h { c with rwODrv := if s == "." then [] else (s.splitOn ",").map fun t => if t == "-" then none else some (t.toNat?.getD 1000000) } st
+  | ["rwor", s] => loop h { c with rwORanges := if s == "-" then [] else (s.splitOn ",").map Drv.parseRange } st
+  | ["rwv", id, v] => loop h { c with rwVals := (id.toNat!, BV4.ofString v) :: c.rwVals } st
+  | ["rwe"] =>
+    let (mr, md) := rewireOptimize c.rwKinds c.rwDrv c.rwRanges
+    let val : Option Nat → Option BV4 := fun o => match o with
+      | none => none
+      | some i => (c.rwVals.find? (·.1 == i)).map (·.2)
+    let showR := fun (rs : List Range) => ",".intercalate (rs.map fun r => match r.src with
+      | .input i o => s!"i:{i}:{o}:{r.subwidth}" | .zero => s!"z:{r.subwidth}" | .one => s!"o:{r.subwidth}" | .undef => s!"u:{r.subwidth}")
+    let showD := fun (ds : List (Option Nat)) => ",".intercalate (ds.map fun d => match d with | none => "-" | some i => toString i)
+    let mut st := { st with rwCases := st.rwCases + 1, ops := st.ops + 1 }
+    if c.rwORanges != c.rwRanges || c.rwODrv != c.rwDrv then st := { st with rwChanged := st.rwChanged + 1 }
+    if c.rwORanges.length < (c.rwRanges.filter (·.subwidth != 0)).length then st := { st with rwHist := bump st.rwHist "ranges_merged" }
+    if c.rwRanges.any (·.subwidth == 0) then st := { st with rwHist := bump st.rwHist "zero_width_dropped" }
+    if (c.rwRanges.filter fun r => match r.src with | .input _ _ => true | _ => false).length >
+       (c.rwORanges.filter fun r => match r.src with | .input _ _ => true | _ => false).length then st := { st with rwHist := bump st.rwHist "constants_folded_or_merged" }
+    if c.rwODrv.length < c.rwDrv.length then st := { st with rwHist := bump st.rwHist "inputs_removed_or_shared" }
+    if mr != c.rwORanges || md != c.rwODrv then
+      IO.println s!"DIFF case={c.id} what=rewire-optimize model=[{showR mr} | {showD md}] impl=[{showR c.rwORanges} | {showD c.rwODrv}]"
+      st := { st with diffs := st.diffs + 1 }
+    let before := evalRewire c.rwRanges (c.rwDrv.map val)
+    let after := evalRewire c.rwORanges (c.rwODrv.map val)
+    if before != after then
+      IO.println s!"PROPFAIL case={c.id} what=rewire-optimize pass=Node_Rewire.optimize before={BV4.toString before} after={BV4.toString after} op=[{showR c.rwRanges}] optimized=[{showR c.rwORanges}]"
+      st := { st with propfails := st.propfails + 1 }
+    loop h c st
   | ["nr", tag, cyc, r] => loop h { c with resets := (tag, cyc.toNat!, r == "1") :: c.resets } st
   | ["end"] =>
     let st ← finish c st
@@ -266,4 +311,5 @@ partial def loop (h : IO.FS.Stream) (c : Case) (st : Stats) : IO Stats := do
 def main : IO Unit := do
   let st ← loop (← IO.getStdin) {} {}
   let hist := ",".intercalate (st.hist.map fun (k, n) => s!"\"{k}\":{n}")
-  IO.println s!"SUMMARY \{\"cases\":{st.cases},\"ops\":{st.ops},\"diffs\":{st.diffs},\"propfails\":{st.propfails},\"fully_defined_reference_runs\":{st.adefCases},\"postprocess_threw\":{st.ppfail},\"pass_boundaries\":{st.boundaries},\"boundaries_not_simulatable\":{st.nosim},\"boundaries_with_changed_trace\":{st.changedBoundaries},\"cycles\":{st.cycles},\"netlists_rechecked\":{st.nets},\"netlists_skipped\":{st.netSkips},\"node_values_rechecked_with_lean_semantics\":{st.nodeEvals},\"register_transitions_rechecked_with_lean_semantics\":{st.regEvals},\"register_transitions_in_reset\":{st.regResetEvals},\"register_transitions_with_enable\":{st.regEnableEvals},\"register_transitions_skipped_reset_changing\":{st.regSkips},\"seqrun_node_values_compared\":{st.autoEvals},\"seqrun_cycles\":{st.autoCycles},\"seqrun_restarts_from_simulator_state\":{st.autoRestarts},\"hist\":\{{hist}}}"
+  let rwhist := ",".intercalate (st.rwHist.map fun (k, n) => s!"\"{k}\":{n}")
+  IO.println s!"SUMMARY \{\"cases\":{st.cases},\"ops\":{st.ops},\"diffs\":{st.diffs},\"propfails\":{st.propfails},\"fully_defined_reference_runs\":{st.adefCases},\"postprocess_threw\":{st.ppfail},\"pass_boundaries\":{st.boundaries},\"boundaries_not_simulatable\":{st.nosim},\"boundaries_with_changed_trace\":{st.changedBoundaries},\"cycles\":{st.cycles},\"netlists_rechecked\":{st.nets},\"netlists_skipped\":{st.netSkips},\"node_values_rechecked_with_lean_semantics\":{st.nodeEvals},\"register_transitions_rechecked_with_lean_semantics\":{st.regEvals},\"register_transitions_in_reset\":{st.regResetEvals},\"register_transitions_with_enable\":{st.regEnableEvals},\"register_transitions_skipped_reset_changing\":{st.regSkips},\"seqrun_node_values_compared\":{st.autoEvals},\"seqrun_cycles\":{st.autoCycles},\"seqrun_restarts_from_simulator_state\":{st.autoRestarts},\"rewire_optimize_cases\":{st.rwCases},\"rewire_optimize_changed\":{st.rwChanged},\"rewire_optimize_hist\":\{{rwhist}},\"hist\":\{{hist}}}"
